@@ -21,15 +21,15 @@ import (
 // each kind, singly and in pairs (second fault in the re-run).
 
 type c18Case struct {
-	Fmt   string `json:"fmt"`             // p2, p1
-	Op    string `json:"op"`              // create, verify, repair, repairdc
-	State string `json:"state"`           // intact, missing, changed, shifted, beyond, volmissing
-	Order int    `json:"order"`           // listing order variant: 0 sorted, 1 reversed, 2 rotated
-	I     int    `json:"i"`               // call index of the first fault
-	Kind  int    `json:"kind"`            // 0 error without effect, k>0: write torn at the k-th cut
-	Pairs bool   `json:"pairs"`           // also enumerate every second fault in the re-run
-	Dec   *decProtoCase `json:"dec,omitempty"` // error-path search on ONE Decoder object: interrupted Repairs, loads whose k-th read fails, then retries (decproto.go)
-	World int    `json:"world,omitempty"` // 0: 2 files / 3 blocks (PAR1: 3 files / 2 volumes); 1 (thorough): 3 files / 7 blocks in 3 recovery files (PAR1: 4 files / 3 volumes), all 6 listing orders
+	Fmt   string        `json:"fmt"`             // p2, p1
+	Op    string        `json:"op"`              // create, verify, repair, repairdc
+	State string        `json:"state"`           // intact, missing, changed, shifted, beyond, volmissing
+	Order int           `json:"order"`           // listing order variant: 0 sorted, 1 reversed, 2 rotated
+	I     int           `json:"i"`               // call index of the first fault
+	Kind  int           `json:"kind"`            // 0 error without effect, k>0: write torn at the k-th cut
+	Pairs bool          `json:"pairs"`           // also enumerate every second fault in the re-run
+	Dec   *decProtoCase `json:"dec,omitempty"`   // error-path search on ONE Decoder object: interrupted Repairs, loads whose k-th read fails, then retries (decproto.go)
+	World int           `json:"world,omitempty"` // 0: 2 files / 3 blocks (PAR1: 3 files / 2 volumes); 1 (thorough): 3 files / 7 blocks in 3 recovery files (PAR1: 4 files / 3 volumes), all 6 listing orders
 }
 
 var c18P2Cfgs = []scen.P2Config{{Sizes: []int{11, 6}, Slice: 4, Blocks: 3, Class: "uniq"}, {Sizes: []int{11, 6, 9}, Slice: 4, Blocks: 7, Class: "uniq"}}
